@@ -135,7 +135,7 @@ def run(v) -> None:
     files = []
     layouts = [(p, a, nb) for p in POLS for a in (False, True) for nb in (4, 8)]
     for i, (pol, asc, nbits) in enumerate(layouts if not quick else layouts[::1]):
-        for rep in range(1 if quick else 3):
+        for rep in range(1 if quick else 7):
             S, nsblk = rng.choice([(2, 4), (3, 4), (3, 2), (2, 6)])
             N = S * nsblk
             red = []
